@@ -161,8 +161,9 @@ Proof.
   destruct (rbe_file X bsec esec res count 0) as [l c]. cbn [fst snd] in Hf. destruct Hf as [Hl Hc2].
   rewrite Z.sub_0_r in *. rewrite filter_app. set (FX := filter (rmatch bsec esec res) X) in *.
   destruct c.
-  - assert (El : l = FX) by (rewrite Hl; apply firstn_all2; unfold lenZ in Hc2; lia). subst l.
-    rewrite IH by (try assumption; unfold lenZ in *; lia).
+  - assert (El : l = FX) by (rewrite Hl; apply firstn_all2; unfold lenZ in Hc2; lia). rewrite El.
+    assert (Hc3 : count + lenZ FX < max_item_amount) by lia.
+    rewrite (IH (count + lenZ FX) Hc3 HgeR HsR).
     replace (Z.to_nat (max_item_amount - count)) with (length FX + Z.to_nat (max_item_amount - (count + lenZ FX)))%nat
       by (unfold lenZ in *; lia).
     rewrite firstn_app_2. reflexivity.
@@ -222,10 +223,10 @@ Lemma rm_more_spec m Xs : forall acc,
      sec_of x = lsec 0 (firstn i (acc ++ P))).
 Proof.
   induction Xs as [|X r IH]; intros acc; cbn zeta; cbn [rm_more_lists concat].
-  - exists []. rewrite app_nil_r. repeat split; [left; reflexivity|]. intros i x H Hi _.
+  - exists []. rewrite !app_nil_r. repeat split; [left; reflexivity|]. intros i x H Hi _.
     apply nth_error_None in Hi. congruence.
   - destruct (lenZ acc >=? m) eqn:Efull.
-    + exists (X ++ concat r). rewrite app_nil_r. repeat split; [right; lia|]. intros i x H Hi _.
+    + exists (X ++ concat r). rewrite !app_nil_r. repeat split; [right; lia|]. intros i x H Hi _.
       apply nth_error_None in Hi. congruence.
     + destruct (rm_file_spec m X (lsec 0 acc) (lenZ acc) 0) as (T0 & E0 & Hc0 & Hx0).
       destruct (rm_file X m (lsec 0 acc) (lenZ acc) 0) as [l c]. cbn [fst snd] in *.
